@@ -6,5 +6,6 @@ CONSTANTS
   Schemes = {"U", "L", "M"}
   Leaves = {"int", "i32", "u8", "float", "string", "bool"}
   Emit = TRUE
+  KeyMode = "plain"
 INVARIANTS PrintCase
 CHECK_DEADLOCK FALSE
